@@ -39,7 +39,7 @@ pub struct C7Cfg {
     pub page_rows: u8,
     /// 0 Page, 1 Chunk, 2 None
     pub stats: u8,
-    /// 0 off, 1 on (max_ndv=1000), 2 ndv=1 fpp=0.5, 3 ndv=8 fpp=0.01, 4 on (default ndv=1M, ~1 MiB filter; only at <= 1 deviation), 5 max_ndv=100 fpp=0.01 (bloomlong only)
+    /// 0 off, 1 on (max_ndv=1000), 2 ndv=1 fpp=0.5, 3 ndv=8 fpp=0.01, 4 on (default ndv=1M, ~1 MiB filter; bloomlong only), 5 max_ndv=100 fpp=0.01 (bloomlong only)
     pub bloom: u8,
     pub v2: bool,
     pub dict: bool,
@@ -126,7 +126,6 @@ fn dev1_cfgs() -> Vec<C7Cfg> {
         C7Cfg { bloom: 1, ..d },
         C7Cfg { bloom: 2, ..d },
         C7Cfg { bloom: 3, ..d },
-        C7Cfg { bloom: 4, ..d },
         C7Cfg { v2: true, ..d },
         C7Cfg { dict: false, ..d },
         C7Cfg { hdr: true, ..d },
@@ -733,8 +732,18 @@ pub fn run(ctx: &Ctx) -> ! {
         for s in &s3 {
             items.push(vec![Some(s.clone())]);
         }
-        for a in &s2 {
-            for b2 in &s2 {
+        // pair base: all <= 1-character [<= 2] strings plus every <= 2-character string over {a, é, U+10FFFF}
+        let mut pair_base = s2.clone();
+        for x in ["a", "é", "\u{10FFFF}"] {
+            for y in ["a", "é", "\u{10FFFF}"] {
+                let t = format!("{x}{y}");
+                if !pair_base.contains(&t) {
+                    pair_base.push(t);
+                }
+            }
+        }
+        for a in &pair_base {
+            for b2 in &pair_base {
                 items.push(vec![Some(a.clone()), Some(b2.clone())]);
             }
         }
@@ -753,7 +762,7 @@ pub fn run(ctx: &Ctx) -> ! {
                 items.push(vec![Some(s), Some("b".into())]);
             }
         }
-        st.extra.insert("strings_bounds".into(), json!({"alphabet": CHARS.iter().map(|c| format!("U+{:04X}", *c as u32)).collect::<Vec<_>>(), "singles": s3.len(), "pair_base": s2.len(), "items": items.len(), "configs": tc.len(), "writer_paths": paths}));
+        st.extra.insert("strings_bounds".into(), json!({"alphabet": CHARS.iter().map(|c| format!("U+{:04X}", *c as u32)).collect::<Vec<_>>(), "singles": s3.len(), "pair_base": pair_base.len(), "items": items.len(), "configs": tc.len(), "writer_paths": paths}));
         let total = (items.len() * tc.len() * paths) as u64;
         let sspec = string_spec();
         st.merge(par_for(ctx, "strings", total, 64, |idx, st| {
@@ -792,6 +801,15 @@ pub fn run(ctx: &Ctx) -> ! {
                 items.push(vec![Some(a.clone()), Some(c.clone())]);
                 if a.len() == 3 && c.len() == 3 {
                     items.push(vec![Some(a.clone()), None, Some(c.clone())]);
+                }
+            }
+        }
+        // every (<= 1-byte, 3-byte) pair in both orders (truncation of one page bound next to an untruncated one)
+        if quick {
+            for a in b3.iter().filter(|x| x.len() <= 1) {
+                for c in b3.iter().filter(|x| x.len() == 3) {
+                    items.push(vec![Some(a.clone()), Some(c.clone())]);
+                    items.push(vec![Some(c.clone()), Some(a.clone())]);
                 }
             }
         }
